@@ -331,4 +331,31 @@ def decodeUtf8 (bs : List UInt8) : Option Err × List Nat :=
   | (_, some e, cps) => (some e, cps)
   | (d, none, cps) => ((finalize d).2, cps)
 
+/-! ### decoder created without `on_codepoint` (options NULL or callback NULL)
+
+`if (decoder->on_codepoint && decoder->remaining == 0)` is the only place the callback matters:
+the state machine is the same, nothing is reported. -/
+
+/-- `aws_utf8_decoder_update` on a decoder without callback: stops at the first error -/
+def updateNoCb (d : Utf8) : List UInt8 → Utf8 × Option Err
+  | [] => (d, none)
+  | b :: rest =>
+    match updateByte d b with
+    | (d', some e, _) => (d', some e)
+    | (d', none, _) => updateNoCb d' rest
+
+/-- chunks, stop at the first error, then finalize — decoder without callback: the verdict -/
+def runChunksNoCb (d : Utf8) : List (List UInt8) → Option Err
+  | [] => (finalize d).2
+  | c :: cs =>
+    match updateNoCb d c with
+    | (_, some e) => some e
+    | (d', none) => runChunksNoCb d' cs
+
+/-- `aws_decode_utf8(bytes, NULL)` -/
+def decodeUtf8NoCb (bs : List UInt8) : Option Err :=
+  match updateNoCb Utf8.init bs with
+  | (_, some e) => some e
+  | (d, none) => (finalize d).2
+
 end AwsVerif.Codec
